@@ -1,2 +1,3 @@
 //! Shared utilities of the verification harness.
+pub mod pool_world;
 pub mod trace;
